@@ -184,6 +184,22 @@ func c09Tokens(ctx *core.Ctx, toks []string, r *rand.Rand) {
 		}
 		v := strings.Join(vt, " ")
 		ctx.Case(v, func() { c09Same(ctx, "keyword-case", base, v, true) })
+		// every one of the 2^len letter-case spellings of each keyword, one keyword at a time
+		for _, idx := range kws {
+			kw := toks[idx]
+			for m := 1; m < 1<<uint(len(kw)); m++ {
+				b := []byte(kw)
+				for i := range b {
+					if m&(1<<uint(i)) != 0 {
+						b[i] = b[i] - 'A' + 'a'
+					}
+				}
+				vt := append([]string{}, toks...)
+				vt[idx] = string(b)
+				v := strings.Join(vt, " ")
+				ctx.Case(v, func() { c09Same(ctx, "keyword-case", base, v, true) })
+			}
+		}
 	}
 }
 
